@@ -170,6 +170,28 @@ theorem C12_known_ids (cdata : List (String × J)) (trackId : Nat) (o : Opts) (c
     courseIndex co id ≠ none ↔ id ∈ cdata.filterMap (fun kv => parseNat kv.1) :=
   courseIndex_known cdata trackId o co h id
 
+/-- **repeated ids: the last kept course wins.** The reader collects its `id → index` map from the
+    kept courses in sorted order, so if two kept courses carry the same database id (two keys of the
+    `courses` object that denote the same number, such as "01" and "1") the later one overwrites the
+    earlier: an id resolved to index `i` is the id of course `i`, and of no later course. -/
+theorem C12_courseIndex_last (co : CoursesOut) (id i : Nat)
+    (h : courseIndex co id = some (some i)) :
+    ∃ hi : i < co.courses.length, (co.courses[i]).dbid = id ∧
+      ∀ j (hj : j < co.courses.length), i < j → (co.courses[j]).dbid ≠ id := by
+  obtain ⟨_, hi, hd, hl⟩ := (courseIndex_eq_some_some_iff co id i).1 h
+  exact ⟨hi, hd, hl⟩
+
+/-- two kept courses with the same database id 1: the id resolves to the second (index 1) -/
+example :
+    courseIndex
+      { courses :=
+          [{ dbid := 1, name := "a", numMin := 0, numMax := 5, instructors := [],
+             factor := .dflt, offset := .dflt, fixed := false, hidden := [] },
+           { dbid := 1, name := "b", numMin := 0, numMax := 5, instructors := [],
+             factor := .dflt, offset := .dflt, fixed := false, hidden := [] }],
+        skipped := [], numIgnored := 0 } 1 = some (some 1) := by
+  decide
+
 /-! ## registrations -/
 
 /-- **registrations, refinement.** A successful `readRegs` is simulated by the typed loop `RD.read`
